@@ -14,7 +14,9 @@ Inductive sop :=
 | SRestart
 | SDelete
 | SIdle                            (* the worker's 10 s wait expired and it finished *)
-| SRearm (b : list event).         (* a write whose notification finds the worker charged; the wait expires before the flush; workerDone re-arms *)
+| SRearm (b : list event)          (* a write whose notification finds the worker charged; the wait expires before the flush; workerDone re-arms *)
+| SDropSource.                     (* TRUNCATE deleted the (fully copied, unheld) source partition and the pipes cleaner dropped its
+                                      descriptor; what is written to these tags afterwards goes to a new partition *)
 
 Definition sched_of (o : sop) : list label :=
   match o with
@@ -26,7 +28,43 @@ Definition sched_of (o : sop) : list label :=
   | SDelete => [LDelete]
   | SIdle => [LTimeout; LWork]
   | SRearm b => [LWrite b; LEnq 0; LDeliver; LTimeout; LWork; LFlush] ++ works (length b + 8)
+  | SDropSource => []
   end.
+
+(* fat = Some k: the destination refuses the copy of source record k every time (with the provenance fields it exceeds
+   MaxRecordSize): whenever the worker is about to hand record k over, its quantum is a failed attempt (code_refuse) *)
+Definition at_fat (fat : option nat) (s : st) : bool :=
+  match fat, wrk s with
+  | Some k, Some (WCopy cp) => cp =? k
+  | _, _ => false
+  end.
+
+Fixpoint run_f (fat : option nat) (tags : list (bytes * bytes)) (s : st) (sched : list label) : st :=
+  match sched with
+  | [] => s
+  | l :: tl =>
+      let s1 := match l with
+                | LWork => if at_fat fat s then step code_applies_filter tags s code_refuse else s
+                | _ => s
+                end in
+      run_f fat tags (step code_applies_filter tags s1 l) tl
+  end.
+
+(* without such a record it is the model's run *)
+Lemma run_f_none tags s sched : run_f None tags s sched = run code_applies_filter tags s sched.
+Proof. revert s. induction sched as [|l tl IH]; intros s; [reflexivity|]. cbn [run_f run at_fat]. destruct l; apply IH. Qed.
+
+(* a clean restart finds the worker parked (LRestart) or asleep between two attempts (stop_retrying); a dropped source is
+   a surgery on the state (model/PipeSync.v) *)
+Definition exec_op (fat : option nat) (tags : list (bytes * bytes)) (s : st) (o : sop) : st :=
+  match o with
+  | SRestart => stop_retrying (run_f fat tags s [LRestart])
+  | SDropSource => drop_source s
+  | _ => run_f fat tags s (sched_of o)
+  end.
+
+Definition run_ops (fat : option nat) (tags : list (bytes * bytes)) (s : st) (ops : list sop) : st :=
+  fold_left (exec_op fat tags) ops s.
 
 Definition dummy : event := {| e_ts := 0; e_msg := []; e_flds := []; e_keep := true |}.
 
@@ -41,27 +79,31 @@ Inductive case :=
    through ops1, which end with its deletion and the writes made while no pipe of that name existed); the pipe was created
    again when the source held pre2 events (all readable) and driven through ops2; observed = what the destination gained
    for this source since the re-creation *)
+(* like KSrc, with a record (index fat in the source journal) whose copy the destination refuses *)
+| KFat (tags : list (bytes * bytes)) (pre : nat) (tail : list event) (ops : list sop) (fat : nat) (observed : list devent)
 | KRe (tags : list (bytes * bytes)) (pre1 : nat) (tail1 : list event) (ops1 : list sop) (pre2 : nat) (ops2 : list sop) (observed : list devent).
 
-Definition model_dst (tags : list (bytes * bytes)) (pre : nat) (tail : list event) (ops : list sop) : list devent :=
-  dst (run code_applies_filter tags (init (repeat dummy pre ++ tail) pre) (flat_map sched_of ops)).
+Definition model_dst (fat : option nat) (tags : list (bytes * bytes)) (pre : nat) (tail : list event) (ops : list sop) : list devent :=
+  dst (run_ops fat tags (init (repeat dummy pre ++ tail) pre) ops).
 
 Definition model_dst_stale (tags : list (bytes * bytes)) (pre : nat) (stale : list event) (ops : list sop) : list devent :=
-  dst (run code_applies_filter tags (init_stale (repeat dummy pre ++ stale) [(pre, pre + length stale)])
-         ((LDeliver :: works (length stale + 6)) ++ flat_map sched_of ops)).
+  dst (run_ops None tags
+         (run code_applies_filter tags (init_stale (repeat dummy pre ++ stale) [(pre, pre + length stale)]) (LDeliver :: works (length stale + 6)))
+         ops).
 
 Definition model_state (tags : list (bytes * bytes)) (pre : nat) (tail : list event) (ops : list sop) : st :=
-  run code_applies_filter tags (init (repeat dummy pre ++ tail) pre) (flat_map sched_of ops).
+  run_ops None tags (init (repeat dummy pre ++ tail) pre) ops.
 
 Definition model_dst_re (tags : list (bytes * bytes)) (s1 : st) (ops2 : list sop) : list devent :=
-  dst (run code_applies_filter tags (recreate s1) (flat_map sched_of ops2)).
+  dst (run_ops None tags (recreate s1) ops2).
 
 Definition check (c : case) : bool :=
   match c with
   | KRe tags pre1 tail1 ops1 pre2 ops2 observed =>
       let s1 := model_state tags pre1 tail1 ops1 in
       (length (log s1) =? pre2) && negb (alive s1) && list_eqb devent_eqb (model_dst_re tags s1 ops2) observed
-  | KSrc tags pre tail ops observed => list_eqb devent_eqb (model_dst tags pre tail ops) observed
+  | KSrc tags pre tail ops observed => list_eqb devent_eqb (model_dst None tags pre tail ops) observed
+  | KFat tags pre tail ops fat observed => list_eqb devent_eqb (model_dst (Some fat) tags pre tail ops) observed
   | KStale tags pre stale ops observed => list_eqb devent_eqb (model_dst_stale tags pre stale ops) observed
   end.
 
